@@ -432,6 +432,47 @@ class _NumberItems:
         yield 'nothing-else-numbered', set(numbering) == set(ids)
 
 
+@contract(CollectionDict.number_items, props=['C02', 'C03', 'C08', 'C16'], name='CollectionDict.number_items[any-sides]')
+class _NumberItemsP:
+    """The same statement for arbitrary integer sides (symbolic) and opaque sub-surfaces: per dictionary shape, the
+    numbering is total over the sub-surfaces, injective, keeps the key for the first sub-surface, takes the others
+    above every key, and matching[key][i] == side_i * number_i for every value of the sides."""
+    def cases(S):
+        for keys in ([3], [7, 3], [3, 12, 7], [1000, 2, 999]):
+            for sizes in _it.product((1, 2, 3), repeat=len(keys)):
+                if len(keys) == 3 and sum(sizes) > 6:
+                    continue
+                d = CollectionDict()
+                objs, sides = {}, {}
+                for k, n in zip(keys, sizes):
+                    sides[k] = S.ints([f'side{k}_{i}' for i in range(n)])
+                    objs[k] = [object() for _ in range(n)]
+                    d[k] = list(zip(objs[k], sides[k]))
+                yield f'keys={keys}/sizes={sizes}', {'self': d, 'keys': keys, 'objs': objs, 'sides': sides}
+
+    def call(self, keys, objs, sides):
+        return self.number_items()
+
+    def ensures(result, self, keys, objs, sides):
+        numbering, matching = result
+        yield 'shape', (list(matching) == list(keys) and all(len(matching[k]) == len(objs[k]) for k in keys))
+        # the number given to sub-surface (k, i): the key for i == 0, else the only number mapped to that object
+        num = {}
+        for n_, o in numbering.items():
+            for k in keys:
+                for i, ob in enumerate(objs[k]):
+                    if ob is o:
+                        num.setdefault((k, i), []).append(n_)
+        yield 'every-sub-surface-numbered-once', all(len(num.get((k, i), [])) == 1
+                                                     for k in keys for i in range(len(objs[k])))
+        yield 'nothing-else-numbered', len(numbering) == sum(len(objs[k]) for k in keys)
+        yield 'first-sub-surface-keeps-the-key', all(num[(k, 0)] == [k] for k in keys)
+        yield 'other-numbers-are-fresh', all(num[(k, i)][0] > max(keys) for k in keys for i in range(1, len(objs[k])))
+        for k in keys:
+            for i in range(len(objs[k])):
+                yield f'signed-by-side[{k},{i}]', matching[k][i] == sides[k][i] * num[(k, i)][0]
+
+
 # ------------------------------------------------------------------ surface cards: text -> (flag, TR, mnemonic, numbers)
 
 def _mip_of(text):
